@@ -3,9 +3,10 @@
    Model: GV.Thread.Proto (the hand-off protocol of runtime/thread.go as an interleaving
    small-step semantics over atomic actions; [reachable cf s] = s is reached from [init] by some
    sequence of actions, any number of threads, any interleaving).  [current] is the code as it
-   stands (ReleaseBytes before the hand-off send since fix eafa506; pending __close handlers
-   discarded on termination since 8db1ed8), [old_order] the order before eafa506, [repaired]
-   additionally forbids coroutine operations inside handlers run by end. *)
+   stands (ReleaseBytes before the hand-off send since fix eafa506; end runs the pending __close
+   handlers first, as an ordinary running thread with its caller detached, before the locked
+   section; a termination raised by a handler is forwarded), [old_order] the code before eafa506,
+   [old_handlers] the code before the handler repair (handlers run inside the locked section). *)
 From Coq Require Import List Bool Arith.
 From GV Require Import Thread.Proto Thread.Inv Thread.Preserve Thread.Refute.
 Import ListNotations.
@@ -36,14 +37,14 @@ Theorem C09_baton_unique_old_order_refuted :
 Proof. exact baton_unique_old_order_refuted. Qed.
 Print Assumptions C09_baton_unique_old_order_refuted.
 
-(* No deadlock is FALSE of the code as it stands: a reachable state in which main has not finished,
-   nobody panicked and no action at all is enabled (end runs a __close handler that resumes a
-   coroutine while holding the mutex Resume needs). *)
-Theorem C09_no_deadlock_refuted :
-  exists s, reachable current s /\ main_done s = false /\ (forall h, pc s h <> Panicked) /\
-    forall a, step current s a = None.
-Proof. exact no_deadlock_refuted. Qed.
-Print Assumptions C09_no_deadlock_refuted.
+(* Regression witness: with the handlers run inside the locked section of end (the code before the
+   handler repair) a reachable state has main not finished, nobody panicked and no action at all
+   enabled (the handler resumes a coroutine while end holds the mutex Resume needs). *)
+Theorem C09_no_deadlock_old_handlers_refuted :
+  exists s, reachable old_handlers s /\ main_done s = false /\ (forall h, pc s h <> Panicked) /\
+    forall a, step old_handlers s a = None.
+Proof. exact no_deadlock_old_handlers_refuted. Qed.
+Print Assumptions C09_no_deadlock_old_handlers_refuted.
 
 (* A dead coroutine's goroutine is past the status write of end — in the remaining straight-line
    section of end or terminated — and never again blocked waiting for a resume. *)
@@ -91,7 +92,7 @@ Print Assumptions C09_values_transferred_exactly.
    [old_order]; the old-order cycle is rejected by [current]. *)
 Theorem C09_acceptor_examples :
   accepts current fixed_trace = true /\ accepts old_order fixed_trace = false /\
-  accepts current race_trace = false /\ accepts repaired deadlock_trace = false /\
-  accepts current deadlock_trace = true.
-Proof. vm_compute. auto. Qed.
+  accepts current race_trace = false /\ accepts current deadlock_trace = false /\
+  accepts old_handlers deadlock_trace = true /\ accepts current handler_resume_trace = true.
+Proof. vm_compute. repeat split. Qed.
 Print Assumptions C09_acceptor_examples.
